@@ -149,6 +149,9 @@ var Replayers = map[string]func(path string) error{}
 
 func Register(id string, f Check) { Registry[id] = f }
 
+// Children are helper entry points run in a separate process: vworker -child <name> args...
+var Children = map[string]func(args []string) int{}
+
 // Fatalf aborts the worker with a harness error (exit 2; never a verdict).
 func Fatalf(f string, a ...interface{}) {
 	panic(HarnessErr(fmt.Sprintf(f, a...)))
